@@ -274,6 +274,7 @@ impl Prop for Faithful {
         }
         cfg.max_items = 2 + t.below(10);
         cfg.backends = false;
+        cfg.static_vfuncs = true;
         let (prog, _, _) = gen_prog(t, cfg);
         Case { prog, w }
     }
